@@ -215,7 +215,8 @@ Proof.
     + match goal with |- R a w (fst (if ?c then _ else _)) => destruct c end; cbn [fst].
       * rt; [exact HW|apply R_deactivate; exact Hc].
       * rt; [exact HW|apply R_change].
-  - match goal with |- R a w (fst (match crashed ?W with _ => _ end)) =>
+  - destruct (match main (gett w aux) with Some (mt, m) => _ | None => false end); [apply R_refl|].
+    match goal with |- R a w (fst (match crashed ?W with _ => _ end)) =>
       assert (HW : R a w W); [|destruct (crashed W)] end.
     { rt; [eapply R_sub; [exact Hc|apply Hsg]|]. apply R_guard; intros; eapply R_sub; [exact Hc|apply Hrc]. }
     + exact HW.
